@@ -385,11 +385,13 @@ class P2PNet(Engine):
                 self._schedule_delivery(c)
             ctx.log(self.q.now, c.src, 'close', c.cid, a['how'])
 
-    def _send(self, c, spec, via, faults, stepi):
+    def _send(self, c, spec, via, faults, stepi, live=None):
         ctx = self.ctx
         chain = self.parties[c.src]['chain']
         try:
-            m = conv.msg_from_spec(spec)
+            # `live`: a message object assembled by the sender from objects it holds (parts of messages it parsed
+            # earlier); `spec` then says what field values it carries
+            m = live if live is not None else conv.msg_from_spec(spec)
             if via == 'to_bytes':
                 data = m.to_bytes()
             elif via == 'serialize':
@@ -719,6 +721,21 @@ class P2PNet(Engine):
             spec = {'type': 'headers', 'f': {'headers': []}}
         elif t == 'mempool':
             spec = {'type': 'inv', 'f': {'inv': []}}
+        if t == 'version' and len(c.outcomes) % 2 == 0:
+            # a relaying node: the addresses a peer reported about itself in its version message go out again in an
+            # addr message - the very objects the parser produced, now inside another message type (whose entries
+            # carry a timestamp; a parsed version address has none: nTime is 0)
+            try:
+                M = self.M
+                relay = M.msg_addr()
+                relay.addrs = [msg.addrFrom, msg.addrTo]
+                vs = conv.spec_from_msg(msg)['f']
+                rspec = {'type': 'addr', 'f': {'addrs': [dict(vs['addrFrom'], time=0), dict(vs['addrTo'], time=0)]}}
+            except Exception as e:            # noqa: BLE001
+                self.ctx.check(False, 'C18.frame', 'assembling an addr message from the addresses of a parsed version message raised %s' % type(e).__name__, type='addr')
+                return
+            self.ctx.fault('parsed-objects-relayed-in-another-message-type')
+            self._send(rc, rspec, 'to_bytes', [], self.ctx.cur_step, live=relay)
         if spec is not None:
             self.ctx.probe('responder-reply')
             self._send(rc, spec, 'to_bytes', [], self.ctx.cur_step)
